@@ -297,6 +297,16 @@ OpClone(ts, cap, then, on, survivor) ==
   IN Res([cl |-> SeqMap(JEnt, cl), then |-> r.ret, other |-> SeqMap(JEnt, IF on = "orig" THEN cl ELSE ts)],
          keep, r.dk \cup KTags(gone), r.dv \cup (VTags(gone) \ {0}))
 
+\* Clone::clone_from (the default: *self = source.clone()): a destination holding the entries
+\* dst (objects 60 + i) is overwritten with a clone of the container; its old entries are
+\* destroyed; the destination is then observed, compared with the source and dropped
+DstTag(dst) == [i \in 1..Len(dst) |-> [c |-> dst[i].c, r |-> dst[i].r, v |-> dst[i].v, kt |-> 60 + i, vt |-> 60 + i]]
+OpCloneFrom(ts, dst, unitVals) ==
+  LET cl == CloneOf(ts)
+      d == DstTag(dst) IN
+  Res([cl |-> SeqMap(JEnt, cl), eq |-> TRUE], ts,
+      KTags(d) \cup KTags(cl), IF unitVals THEN {} ELSE VTags(d) \cup VTags(cl))
+
 \* ---------------------------------------------------------------- serde --
 \* serialization.rs / set/serialization.rs: announce len(), emit the entries in slot
 \* order; the visitor builds a fresh container by a loop of insert (objects 40 + j)
@@ -350,6 +360,8 @@ Apply(ts, cap, op) ==
     [] op.name = "s_from_array"     -> SOpFromIter(cap, op.items)
     [] op.name = "s_fmt"            -> OpFmt(ts)
     [] op.name = "clone"            -> OpClone(ts, cap, op.then, op.on, op.survivor)
+    [] op.name = "clone_from"       -> OpCloneFrom(ts, op.dst, FALSE)
+    [] op.name = "s_clone_from"     -> OpCloneFrom(ts, op.dst, TRUE)
     [] op.name = "serde"            -> OpSerde(ts, op.m)
 
 AltOf(ts, cap, op) ==
